@@ -79,8 +79,14 @@ def run(ctx):
                 if o["acc"] and not h["ok"]:
                     uns += 1
                     nvalid = len({s[1] for s in h["sigs"] if s[0] == "g" and 1 <= s[1] <= N})
-                    if h["acc"] and sv < C + 1:
-                        key = KNOWN
+                    listed = {k for k in h["bk"] if 1 <= k <= N}
+                    outsider = any(k > N for k in h["bk"])
+                    if outsider:
+                        key = "AddHeaders:unsound-accept:non-member-bookkeeper"
+                    elif len(listed) < C + 1:
+                        key = "AddHeaders:unsound-accept:fewer-than-C+1-distinct-members-listed"
+                    elif h["acc"] and sv < C + 1:
+                        key = KNOWN          # C+1 distinct members are listed, but fewer signatures are verified
                     elif h["acc"] and h["dup"]:
                         key = "AddHeaders:unsound-accept:duplicate-bookkeeper"
                     else:
